@@ -67,7 +67,7 @@ static std::string case_json() {
 }
 
 int main(int argc, char **argv) {
-  Args a = parse_args(argc, argv);
+  Args a = parse_args(argc, argv); vo::allow_noctx() = true;
   init_keys(false); init_tokens();
   cur_case() = [] { return case_json(); };
   Stats &st = stats();
